@@ -40,6 +40,9 @@ class Gen(object):
             # near the protocol's 32767-character limit, multi-byte
             return r.choice(('a' * 32767, '中' * 10923, 'я' * 20000,
                              'é' * 32767))
+        if r.random() < 0.05:
+            return r.choice(('\ufeff', '\ufeffjson', 'x\ufeff', '\x00', '\u2028',
+                             '\uffff'))
         return r.choice(('', 'a', 'héllo', '€uro \U0001F600', 'x' * 130,
                          '{"text":"hi"}', 'minecraft:overworld',
                          ''.join(chr(r.randrange(32, 0x2000))
@@ -441,8 +444,18 @@ def run(run):
                 if run.mine(case):
                     cases.append((case, pv, K))
     rng.shuffle(cases)
+    # half of the cases use one long-lived context object whose protocol
+    # version is reassigned (what Connection.connect() does on every
+    # reconnect): anything cached per context object must follow
+    shared_ctx = ConnectionContext(protocol_version=cases[0][1] if cases
+                                   else 757)
     for case, pv, K in cases:
-        ctx = ConnectionContext(protocol_version=pv)
+        if case % 2:
+            shared_ctx.protocol_version = pv
+            ctx = shared_ctx
+            run.count('cases_with_reused_context')
+        else:
+            ctx = ConnectionContext(protocol_version=pv)
         run.seen('classes', K.__module__.split('.')[-3][0] + ':' +
                  K.__qualname__)
         name = K.__name__
